@@ -258,15 +258,15 @@ Proof.
   apply (chunking_bounded ref_tok ref_tok_stable ref_tok_len REF_CAP); [unfold REF_CAP; lia|exact ref_again_cap|exact ref_tok_none_empty].
 Qed.
 
-Theorem ref_timed_chunking : forall wait steps c g now ts,
+Theorem ref_timed_chunking : forall wait ht steps c g now ts,
   (forall c0 gap, In (c0, gap) ((c, g) :: steps) -> 0 <= gap < wait) ->
   (length (i_buf (t_in ts)) < REF_CAP)%nat ->
   match push_bytes ref_tok REF_CAP (t_in ts) (concat (map fst ((c, g) :: steps))) with
-  | Some (evs, s') => exists ms d, timed_run ref_tok REF_CAP wait false now ts ((c, g) :: steps) = Some (evs, ms, mkT s' d)
-  | None => timed_run ref_tok REF_CAP wait false now ts ((c, g) :: steps) = None
+  | Some (evs, s') => exists ms d, timed_run ref_tok REF_CAP wait false false ht now ts ((c, g) :: steps) = Some (evs, ms, mkT s' d)
+  | None => timed_run ref_tok REF_CAP wait false false ht now ts ((c, g) :: steps) = None
   end.
 Proof.
-  apply (timed_chunking ref_tok ref_tok_stable ref_tok_len REF_CAP); [unfold REF_CAP; lia|exact ref_again_cap|exact ref_tok_none_empty].
+  intros wait ht. apply (timed_chunking ref_tok ref_tok_stable ref_tok_len REF_CAP); [unfold REF_CAP; lia|exact ref_again_cap|exact ref_tok_none_empty].
 Qed.
 
 (* a stream with every kind of token: 'a', e-acute (2 bytes), the euro sign (3 bytes), ESC [ A, ESC O P,
